@@ -9,6 +9,7 @@ bind:  every TLC-enumerated writer program (<= 4 steps, <= 2 seeks; deeper ones 
        RecordIOTrace.tla.
 """
 import json
+import os
 import random
 
 import common
@@ -75,6 +76,11 @@ def run(tier):
     for ver in (1, 2, 3):
         for fi, fam in enumerate(["tiny", "marker", "page"] if not thorough else FAMS):
             recs = riorun.payload_family(fam, rng, bufs=(16, 64, 4096))
+            if fam != "marker":
+                # versions 2 and 3 have no header checksum: a payload that happens to contain the three marker bytes (random payloads of some KiB do,
+                # now and then) would be a phantom record for SeekNext - the marker family is read without SeekNext, the others are made marker-free
+                recs = {t: v.replace(riorun.MARKER, b"\x91\x8d\x4d") for t, v in recs.items()}
+                assert len(set(recs.values())) == len(recs)
             toks = list(recs)
             cases = []
             for p in progs[(ver * 7 + fi)::max(1, len(progs) // nleg)][:nleg]:
@@ -87,6 +93,7 @@ def run(tier):
                               "seeks": [] if fam == "marker" else [0, 8, 9, 100, 4095, 4096, 4097], "damage": ""})
             batches.append(("legacy-v%d-%s" % (ver, fam), recs, cases))
     total = riorun.run_batches(o, binary, batches, "C04")
+    total += life_cycles(o, binary, thorough)
     o.evaluations = total
     o.nontrivial = sum(1 for p in progs if any(h["op"] == "seek" for h in p)) + nlong + 12
     o.rule = ("cases = TLC-enumerated writer programs (all of <= 4 steps incl. <= 2 seeks, simulated up to 9 steps) x seeded (compression, buffers, "
@@ -96,6 +103,29 @@ def run(tier):
     o.assumptions = ["payloads that embed a complete valid record (marker + consistent header checksum) are excluded: no marker-scanning SeekNext can "
                      "tell them apart", "direct I/O cases only use aligned-size buffers and no WriteSync (unsupported by design)"]
     return o.finish()
+
+
+def life_cycles(o, binary, thorough):
+    """LibLifecycle.tla: every call sequence of depth 5 on one file writer / file reader / mmap reader, in whatever phase it is in"""
+    seqs = []
+    for k in ("fw", "fr", "mm"):
+        judge.model_check("LibLifecycle.tla", "MC_LibLife_%s.cfg" % k, o, "life cycle of the %s object: RefusedIsNoOp, ClosedStaysClosed" % k)
+        behs, _ = judge.gen_behaviours("LibLifecycle.tla", "MC_LibLife_%s.cfg" % k, outcome=o, what="all call sequences of depth 5 (%s)" % k)
+        seqs += [{"kind": k, "ops": [c["op"] for c in b]} for b in behs]
+    work = common.scratch("C04-liblife")
+    trace = os.path.join(work, "trace.ndjson")
+    judge.run_driver(binary, "liblife", {"dir": work, "seqs": seqs}, trace, timeout=600)
+    nok, bad, r = judge.judge_trace("LibLifecycleTrace.tla", "LibLifecycleTrace.cfg", trace, o, "judge object life cycles", heap="4g")
+    # a deviation from the strict phase table that harms nothing C04 states (say, a second Close that succeeds) is a note, not a verdict
+    notes = [b for b in bad if b["clause"].startswith("note:")]
+    bad = [b for b in bad if not b["clause"].startswith("note:")]
+    for b in bad[:10]:
+        o.report("liblife/%s" % b["clause"], "object life cycle: %s\n  expected %s" % (b.get("ev", "")[:500], b.get("expected", "")[:400]), {"line": b["line"]})
+    o.extra["life_cycle_sequences"] = len(seqs)
+    o.extra["life_cycle_deviations_from_the_strict_phase_table_(notes)"] = len(notes)
+    log("[C04] %d call sequences on file writer / file reader / mmap reader: %s conform, %d rejected, %d deviate from the strict phase table (notes)" % (len(seqs), nok, len(bad), len(notes)))
+    o.traces += len(seqs)
+    return len(seqs)
 
 
 def replay(path):
